@@ -308,7 +308,7 @@ def validate_jobs(tag, jobs, outdir, gen, n, timeout=900, parallel=8, missing_pr
         text = open(trace + ".tlc.log", errors="replace").read()
         if rc == 124:
             raise ToolError(f"[{tag}] trace validation timed out ({trace})")
-        drift = text.count('<<"MESSAGE-DRIFT"')
+        drift = text.count('"MESSAGE-DRIFT"')
         if drift:
             DIAGNOSTICS["message_texts_differing_from_Messages.tla"] = DIAGNOSTICS.get("message_texts_differing_from_Messages.tla", 0) + drift
             log(f"[diagnostic] {drift} error message text(s) differ from Messages.tla (not part of any property; not part of the verdict)")
